@@ -509,9 +509,10 @@ fn big(a: &Args) {
     start_watchdog(a.str("out"), a.u64_or("hang_ms", 240000));
     let mut cases: Vec<Value> = Vec::new();
     let sizes: Vec<(usize, usize)> = if thorough {
-        vec![(1000, 1), (1000, 10), (1000, 1000), (1000, 10000), (100000, 100), (100000, 100000), (100000, 1000000), (20000, 3)]
+        vec![(1000, 1), (1000, 10), (1000, 1000), (1000, 10000), (100000, 100), (100000, 100000), (100000, 1000000), (20000, 3), (70001, 400), (131073, 100000)]
     } else {
-        vec![(1000, 1), (1000, 30), (1000, 3000), (50000, 50), (50000, 50000)]
+        // 70001: more than 2^16 bins, not a multiple of any block size
+        vec![(1000, 1), (1000, 30), (1000, 3000), (50000, 50), (50000, 50000), (70001, 400)]
     };
     for (m, n) in sizes {
         for (alg, ft) in KINDS {
@@ -526,15 +527,34 @@ fn big(a: &Args) {
                 let pre = a1.raw();
                 a1.end();
                 let post = a1.raw();
+                let views = a1.views();
                 let mut a2 = make(alg, ft, m);
                 a2.slice(&items);
                 let post2 = a2.raw();
-                (pre, post, post2)
+                (pre, post, post2, views)
             });
             watch_end();
             let mut bad: Vec<String> = Vec::new();
             match r {
-                Ok((pre, post, post2)) => {
+                Ok((pre, post, post2, views)) => {
+                    // the three public views: m entries each; float and u64 views are the finished bins; the u32 view is a
+                    // function of the u64 view (equal hashes have equal images, everywhere in the sketch)
+                    let (vf, v64, v32) = views;
+                    if vf.len() != m || v64.len() != m || v32.len() != m {
+                        bad.push(format!("view lengths {} / {} / {} for {} bins", vf.len(), v64.len(), v32.len(), m));
+                    } else {
+                        if (0..m).any(|k| vf[k].to_bits() != post.0[k].to_bits() || v64[k] != post.1[k]) {
+                            bad.push("float or u64 view differs from the finished bins".to_string());
+                        }
+                        let mut img: HashMap<u64, u32> = HashMap::new();
+                        for k in 0..m {
+                            let e = img.entry(v64[k]).or_insert(v32[k]);
+                            if *e != v32[k] {
+                                bad.push(format!("u32 view: the hash at position {} has the image {} here and {} elsewhere", k, v32[k], *e));
+                                break;
+                            }
+                        }
+                    }
                     let popped: std::collections::HashSet<(u64, u64)> =
                         (0..m).filter(|k| pre.2[*k]).map(|k| (pre.0[k].to_bits(), pre.1[k])).collect();
                     for k in 0..m {
